@@ -19,6 +19,19 @@ ASSUMPTIONS.append('reconfiguration while running (oracle-only family, harness/d
                    'higher priority value is waiting" is read with the table in force at the start of service (a start in the very instant of a change is not judged); also '
                    '`rate` reassigned and next hops that hand packets straight back to put() or re-label them')
 EXTRA_MODULES = ('OnlVerif.Props.C13K',)
+BRIDGES = ['C13.sp_order_generated_eq_model', 'C13.sp_pick_generated_eq_model']
+_PREP = {}
+
+
+def prepare(ctx):
+    """regenerate lean/OnlVerif/Generated/Sp13.lean from the source under $ONL_REPO (a translator failure or a bridge
+    theorem that no longer compiles is a broken obligation)"""
+    from py2lean import translate, more
+    _PREP['translated'] = more.TRANSLATED['Sp13']
+    _PREP['rewritten'] = translate.regenerate_all(only=('Sp13',))
+    _PREP['diff_vs_pinned'] = translate.diff_vs_pinned('Sp13')
+
+
 TRUSTED_EXTRA = ['the kernel guarantees (G1-G3) that make `tick` admissible only at quiescence are theorems of model K (C01), assumed for the device LTS']
 
 
